@@ -36,7 +36,9 @@ pub fn alphabet() -> Vec<char> {
     let mut v: Vec<char> = (32u8..127u8).map(|b| b as char).collect();
     v.extend(['\n', '\r', '\t', '\u{e9}', '\u{c9}', '\u{436}', '\u{416}', '\u{20ac}', '\u{1d11e}',
               // two 3-byte characters with lead byte 0xE0 (U+0800..U+0FFF), neither a word character nor cased
-              '\u{e3f}', '\u{964}']);
+              '\u{e3f}', '\u{964}',
+              // a character whose last UTF-8 byte is 0xBF (the top of the continuation range), not a word character, not cased
+              '\u{bf}']);
     v
 }
 
